@@ -44,6 +44,31 @@
 (*     authentication (the checks that bind a message to this handshake    *)
 (*     must not hang on properties an attacker can leave out);             *)
 (*   - removing any other property is an alteration like every other.      *)
+(*                                                                         *)
+(* Announced participant GUID (strengthening round 3).  A CA-issued        *)
+(* participant may ANNOUNCE (in c.pdata and in SPDP) a GUID other than the *)
+(* one bound to its certificate.  The binding of DDS Security 1.1 Table 52 *)
+(* covers the first 48 bits (bytes 0..5: a leading 1 and 47 bits of the    *)
+(* SHA-256 of the subject name); `lie[p]` says how p's announced GUID      *)
+(* relates to the bound one: "no" = equal, "free" = differs only outside   *)
+(* those 48 bits (still bound as far as a peer can tell), "unbound" =      *)
+(* differs within them.  The property statement: "a participant GUID not   *)
+(* bound to the presented certificate ... never lead[s] to authentication  *)
+(* or to a shared secret": the PEER of an unbound party never completes.   *)
+(* Nothing else is demanded in such runs (the blocking clauses speak about *)
+(* the genuine handshake of two participants that announce their bound     *)
+(* GUIDs: Expected needs AllBound); what the lying party itself reaches    *)
+(* is unconstrained, and so is everything about a "free" GUID.             *)
+(*                                                                         *)
+(* Plugin call (`call`): the judge takes the call that was really made     *)
+(* from the event.  Besides the dispatch of secure_discovery.rs (by its    *)
+(* own mirror of the handshake state) a message that claims to be a        *)
+(* request may be handed to begin_handshake_reply in ANY state (dispatch   *)
+(* by message kind at the Authentication plugin API): then the plugin's    *)
+(* own state guard is all that protects a handshake in progress from a     *)
+(* duplicated / replayed / out-of-order request.  No clause depends on     *)
+(* the dispatch: an accepted begin_reply re-emits the reply (id 2), a      *)
+(* clean copy of the awaited message must still be accepted afterwards.    *)
 (***************************************************************************)
 EXTENDS Integers, Sequences, FiniteSets, TLC
 
@@ -56,8 +81,9 @@ VARIABLES ds,      \* discovery-level handshake state per party (decides which p
           accAlt,  \* alteration of the last input the party accepted ("none" for a clean copy)
           msgs,    \* id -> [k, by, clean, ralt]
           sec,     \* id of the secret get_shared_secret hands out, 0 = none
+          lie,     \* announced participant GUID of each party vs the one bound to its certificate: "no" / "free" / "unbound"
           viol, known
-absVars == <<ds, clean, hurt, accAlt, msgs, sec, viol, known>>
+absVars == <<ds, clean, hurt, accAlt, msgs, sec, lie, viol, known>>
 
 OldMsgs == (11 :> [k |-> "req",   by |-> "A", clean |-> FALSE, ralt |-> "old"]) @@
            (12 :> [k |-> "reply", by |-> "B", clean |-> FALSE, ralt |-> "old"]) @@
@@ -70,7 +96,16 @@ AbsInit ==
   /\ accAlt = [p \in Parties |-> "none"]
   /\ msgs = OldMsgs
   /\ sec = [p \in Parties |-> 0]
+  /\ lie = [p \in Parties |-> "no"]
   /\ viol = {} /\ known = {}
+
+\* DDS Security 1.1, 9.3.3 Table 52: bytes of the 16-byte participant GUID that are derived from the certificate (48 bits)
+CertBytes == 0..5
+GuidBytesAll == 0..15
+\* class of an announced GUID from the set of byte positions in which it differs from the certificate-bound GUID
+LieClass(d) == IF d = {} THEN "no" ELSE IF d \cap CertBytes # {} THEN "unbound" ELSE "free"
+Other(p) == IF p = "A" THEN "B" ELSE "A"
+AllBound == \A p \in Parties : lie[p] = "no"
 
 Put(f, k, v) == [x \in DOMAIN f \cup {k} |-> IF x = k THEN v ELSE f[x]]
 
@@ -89,12 +124,16 @@ EquivCopy(to, mid, alt, strip) == FromPeer(to, mid) /\ alt = "none" /\ strip # {
 \* the replier answered a bad request and now gets the genuine one
 Restart(to, mid, alt, strip) == CleanCopy(to, mid, alt, strip) /\ ds[to] = "Final" /\ ~clean[to] /\ msgs[mid].k = "req"
 
-Expected(to, mid, alt, strip) ==
+\* a byte-identical copy of the message the receiver is waiting for (the natural next step of the exchange)
+InOrder(to, mid, alt, strip) ==
   /\ CleanCopy(to, mid, alt, strip)
   /\ \/ ds[to] = "ReqMsg" /\ msgs[mid].k = "req"
      \/ ds[to] = "Reply"  /\ msgs[mid].k = "reply"
      \/ ds[to] = "Final"  /\ msgs[mid].k = "final" /\ clean[to]
      \/ Restart(to, mid, alt, strip)
+
+\* ... which the property demands to be accepted when both participants announce the GUID bound to their certificate
+Expected(to, mid, alt, strip) == AllBound /\ InOrder(to, mid, alt, strip)
 
 SecViol(ds2, clean2, s) ==
        (IF \E p \in Parties : s[p] # 0 /\ ds2[p] \notin Done THEN {"C19_secret_before_completion"} ELSE {})
@@ -107,8 +146,8 @@ AbsReq(K, out, emit, s) ==
   /\ ds' = [ds EXCEPT !["A"] = IF out = "acc" THEN "Reply" ELSE @]
   /\ msgs' = IF out = "acc" /\ emit # 0 THEN Put(msgs, emit, [k |-> "req", by |-> "A", clean |-> clean["A"], ralt |-> "none"]) ELSE msgs
   /\ sec' = s
-  /\ viol' = viol \cup (IF out # "acc" THEN {"C19_genuine_message_refused"} ELSE {}) \cup SecViol(ds', clean, s)
-  /\ UNCHANGED <<clean, hurt, accAlt, known>>
+  /\ viol' = viol \cup (IF out # "acc" /\ AllBound THEN {"C19_genuine_message_refused"} ELSE {}) \cup SecViol(ds', clean, s)
+  /\ UNCHANGED <<clean, hurt, accAlt, lie, known>>
 
 \* one delivery; call = plugin call made ("begin_reply" / "process" / "none");
 \* alt = how property VALUES / the class id differ from message mid ("none": not at all), strip = properties removed
@@ -144,6 +183,9 @@ AbsDlv(K, to, mid, alt, strip, call, out, emit, s) ==
       k1  == (IF refused /\ refKnown THEN {refClause} ELSE {}) \cup (IF badAuth /\ authKnown THEN {authClause} ELSE {})
       v2  == IF out = "panic" THEN {"C19_panic_on_handshake_message"} ELSE {}
       v3  == IF call = "none" /\ accepted THEN {"C19_bad_message_authenticated"} ELSE {}
+      \* --- safety: completing with a peer whose announced GUID is not bound to its certificate
+      v4  == IF accepted /\ call = "process" /\ lie[Other(to)] = "unbound"
+             THEN {"C19_guid_not_bound_to_certificate_authenticated"} ELSE {}
   IN
   /\ mid \in DOMAIN msgs
   /\ ds' = [ds EXCEPT ![to] = nds]
@@ -152,8 +194,15 @@ AbsDlv(K, to, mid, alt, strip, call, out, emit, s) ==
   /\ accAlt' = [accAlt EXCEPT ![to] = nal]
   /\ msgs' = IF accepted /\ emit # 0 THEN Put(msgs, emit, [k |-> ek, by |-> to, clean |-> ncl, ralt |-> nal]) ELSE msgs
   /\ sec' = s
-  /\ viol' = viol \cup v1 \cup v2 \cup v3 \cup SecViol(ds', clean', s)
+  /\ viol' = viol \cup v1 \cup v2 \cup v3 \cup v4 \cup SecViol(ds', clean', s)
   /\ known' = known \cup k1
+  /\ UNCHANGED lie
+
+\* before anything else happens: party p announces a GUID of class c
+AbsLie(p, c) ==
+  /\ ds = [q \in Parties |-> IF q = "A" THEN "ReqSend" ELSE "ReqMsg"] /\ msgs = OldMsgs /\ AllBound
+  /\ lie' = [lie EXCEPT ![p] = c]
+  /\ UNCHANGED <<ds, clean, hurt, accAlt, msgs, sec, viol, known>>
 
 AbsNoViolation == viol = {}
 ==========================================================================
